@@ -2,7 +2,9 @@
 //! Reads follow a script of `Data` / `Pending` / `Eof` steps; a `Pending` step makes one
 //! `poll_read` return `Pending` after waking the task (so the connection future returns to its
 //! executor between two reads); when the script is exhausted without `Eof` the socket stays
-//! `Pending` and silent. Writes are always accepted in full and recorded.
+//! `Pending` and silent. Writes are accepted in full and recorded; with `write_pend` every other
+//! `poll_write` first returns `Pending` (write back-pressure: a response may stay in the write
+//! buffer across polls).
 use std::{
     cell::RefCell,
     collections::VecDeque,
@@ -36,12 +38,15 @@ pub struct ScriptSock {
     cur: Vec<u8>,
     off: usize,
     eof: bool,
+    /// every other `poll_write` returns `Pending` (after waking the task)
+    write_pend: bool,
+    wtoggle: bool,
     log: Rc<RefCell<SockLog>>,
 }
 
 impl ScriptSock {
-    pub fn new(steps: Vec<Step>, log: Rc<RefCell<SockLog>>) -> Self {
-        ScriptSock { steps: steps.into(), cur: Vec::new(), off: 0, eof: false, log }
+    pub fn new(steps: Vec<Step>, write_pend: bool, log: Rc<RefCell<SockLog>>) -> Self {
+        ScriptSock { steps: steps.into(), cur: Vec::new(), off: 0, eof: false, write_pend, wtoggle: false, log }
     }
 }
 
@@ -96,7 +101,14 @@ impl AsyncRead for ScriptSock {
 }
 
 impl AsyncWrite for ScriptSock {
-    fn poll_write(self: Pin<&mut Self>, _cx: &mut Context<'_>, buf: &[u8]) -> Poll<io::Result<usize>> {
+    fn poll_write(mut self: Pin<&mut Self>, cx: &mut Context<'_>, buf: &[u8]) -> Poll<io::Result<usize>> {
+        if self.write_pend {
+            self.wtoggle = !self.wtoggle;
+            if self.wtoggle {
+                cx.waker().wake_by_ref();
+                return Poll::Pending;
+            }
+        }
         self.log.borrow_mut().written.extend_from_slice(buf);
         Poll::Ready(Ok(buf.len()))
     }
